@@ -775,3 +775,36 @@ func deepCopy(t types.Type, v value, memo map[*value]*value, depth int) value {
 	}
 	return v
 }
+
+// ---- timers: never fire (no goroutines, no real clock) -----------------------------
+
+func init() {
+	newTimer := func(fr *frame, typeName string) *value {
+		tp := fr.i.prog.ImportedPackage("time")
+		var cell value = zero(tp.Type(typeName).Type())
+		st := cell.(structure)
+		// field C (receive channel) is the first field of Timer and Ticker
+		st[0] = &chanv{cap: 1}
+		return &cell
+	}
+	externals["time.AfterFunc"] = func(fr *frame, a []value) value {
+		stubHit(fr, "time.AfterFunc(never fires)")
+		return newTimer(fr, "Timer")
+	}
+	externals["time.NewTimer"] = func(fr *frame, a []value) value {
+		stubHit(fr, "time.NewTimer(never fires)")
+		return newTimer(fr, "Timer")
+	}
+	externals["time.NewTicker"] = func(fr *frame, a []value) value {
+		stubHit(fr, "time.NewTicker(never fires)")
+		return newTimer(fr, "Ticker")
+	}
+	externals["time.After"] = func(fr *frame, a []value) value {
+		stubHit(fr, "time.After(never fires)")
+		return &chanv{cap: 1}
+	}
+	externals["(*time.Timer).Stop"] = func(fr *frame, a []value) value { return true }
+	externals["(*time.Timer).Reset"] = func(fr *frame, a []value) value { return true }
+	externals["(*time.Ticker).Stop"] = extNoop
+	externals["(*time.Ticker).Reset"] = extNoop
+}
